@@ -135,3 +135,32 @@ func verifC11BarrierDurable() {
 	verifAssert("durable/block-survives", verifBytesEq(d2.Read(a), v))
 	verifCover("c11/barrier-durable")
 }
+
+// (c') a persistently failing system call (any errno, including EINTR/EAGAIN) is never swallowed.
+func verifC11PersistentFailure() {
+	n := 1 + verifChoose(2)
+	path := verifPath("disk.img")
+	d, err := NewFileDisk(path, uint64(n))
+	verifAssume(err == nil)
+	a := uint64(verifChoose(n))
+	v := verifNondetBytes("v", int(BlockSize))
+	d.Write(a, v)
+	errno := []int{5, 4, 11, 28}[verifChoose(4)] // EIO, EINTR, EAGAIN, ENOSPC
+	switch verifChoose(3) {
+	case 0:
+		verifKernelFailAlways("fsync", errno)
+		p := verifTry(func() { d.Barrier() })
+		verifAssert("persistent/barrier-panics", p)
+	case 1:
+		verifKernelFailAlways("pwrite", errno)
+		p := verifTry(func() { d.Write(a, verifNondetBytes("w", int(BlockSize))) })
+		verifAssert("persistent/write-panics", p)
+		verifKernelFailAlways("", 0)
+		verifAssert("persistent/failed-write-not-visible-as-success", verifBytesEq(d.Read(a), v))
+	case 2:
+		verifKernelFailAlways("pread", errno)
+		p := verifTry(func() { d.Read(a) })
+		verifAssert("persistent/read-panics", p)
+	}
+	verifCover("c11/persistent-failure")
+}
